@@ -155,4 +155,95 @@ structure Mark where
   name : String
   deriving DecidableEq, Repr
 
+/-! ### Wiring of the scheduler (`scheduler/scheduler.go`)
+
+`harness/cmd/extract/schedwiring.go` recognises the Scheduler Loop, the worker,
+`Wait` and `Enqueue` by their STRUCTURE (not by the names of their locals) and
+reports them as ordered lists of *markers*: `name` or `name:detail`, `detail`
+being gofmt-printed source text.  A statement that is not recognised becomes a
+marker `unknown:<text>`.  Statements under `if verifOn { ... }` and assignments
+from `verif*()` calls are the verification hooks and are treated as absent. -/
+
+/-- An arm of the `select` of the Scheduler Loop.
+
+* `kind`: `"send"` (`ch <- v`: the dispatch arm), `"recvOk"` (`v, ok := <-ch`:
+  the enqueue arm), `"recvVal"` (`v := <-ch`: the result arm), `"recv"`
+  (`<-ch`: the ticker arm), `"default"`, `"unknown"`;
+* `comm`: the communication clause, `chan`: its channel operand;
+* `chanIsLocalNilable`: the operand is a local variable (or parameter) of the
+  function for which `disabledWhen` is non-empty, i.e. the arm can be disabled;
+* `disabledWhen`: how that local can be nil, one entry per declaration /
+  assignment found anywhere in the function:
+  `nil-if:<conds>` (assigned nil under these conditions; `(c)` = inside
+  `if c`, `!(c)` = inside its else, `arm[...]`, `case[...]`, `for[...]`,
+  `func[...]` for the other enclosing constructs; `true` = unconditionally),
+  `closed:<ch>` (assigned nil exactly in `case v, ok := <-ch: if !ok { .. }`),
+  `nil-unless:<conds>` (declared without a value, assigned under these
+  conditions), `nil-always`, `alias:<x>` (initialised from another variable),
+  `set-if:<conds>:<value>` (re-assigned), `unknown:<text>`. -/
+structure SelArm where
+  kind : String
+  comm : String
+  chan : String
+  chanIsLocalNilable : Bool
+  disabledWhen : List String
+  deriving DecidableEq, Repr
+
+/-! ### Ownership facts about package scheduler (P28)
+
+Extracted by `harness/cmd/extract/ownership.go` with go/types from the non-test
+files of package `scheduler` built without the `verif` tag.  The verification
+hooks are treated as absent: `if verifOn { ... }` blocks are skipped, files
+`verif_*.go` contribute nothing, and whatever they declare is invisible (the
+`verif` fields, calls of hook functions).
+
+*Contexts.*  An access is attributed to the enclosing top-level function or
+method (`worker`, `Scheduler.run`, `Config.New`; methods as `Recv.Name` without
+the star), followed, for every func literal on the way, by `:defer` (operand of
+`defer`, called on the spot), `:go` (started by `go`) or `:lit` (anything else).
+Package-level variable initialisers are the context `init`.
+
+*Threads* (`fnThreads`).  A thread is a kind of goroutine, named after its root:
+`caller` (everything reachable from an exported function or method), `init`,
+and for every `go` statement the context it starts (`worker`, `Scheduler.run`,
+`Config.New:go`).  A context is reached through static calls of package-level
+functions and methods, through `:defer` literals and literals called on the
+spot; so a helper called only from the loop runs on `["Scheduler.run"]`.  A
+literal that is stored or passed on and a package function used as a value get
+a thread `unknown: ...`; a context nothing reaches has no thread at all. -/
+
+/-- One way a function context touches a field of a struct of package scheduler
+(de-duplicated, sorted).
+
+* `struct`, `field`: the struct type declaring the field, and the field;
+  `field = "*"` for an escape of the whole struct;
+* `kind`:
+  * `"read"`; `"write"` (assignment, `op=`, `++`/`--`, assignment to an element
+    `x.f[i] = v` or to a sub-field of a struct value `x.f.g = v`; `op=`, `++`
+    and element writes also yield a `"read"`);
+  * `"init"`: the field is set by a composite literal (the value is in
+    `structInits`);
+  * `"escape"`: `detail = "&"`: the address of the field (or of a struct
+    variable) is taken; `detail = "reslice"`: `x.f[a:b]`, a writable alias of
+    what the field holds; otherwise `detail` is the callee (go/types full name,
+    `dynamic: <text>` for a function value, prefixed `go ` when started as a
+    goroutine) a pointer to the struct (or a slice / map / channel of such) is
+    passed to, the callee not being a function of package scheduler;
+  * `"unknown"`: the package could not be loaded (`struct` says why);
+* `fn`: the context;
+* `arm`: the arm of the innermost `select` (of the same context) the access lies
+  in: `recv:<chan>`, `send:<chan>`, `default`; `""` outside any select arm and
+  for the communication of an arm itself.  `<chan>` does not depend on names of
+  locals where avoidable: a field is `Struct.field` (`Scheduler.finishedc`,
+  `time.Ticker.C`), a call `call:<callee>`, a local that is only ever assigned
+  one such channel (or nil) is that channel, any other local `local:<name>`. -/
+structure FieldAccess where
+  struct : String
+  field : String
+  kind : String
+  fn : String
+  arm : String
+  detail : String
+  deriving DecidableEq, Repr
+
 end Extracted
